@@ -1243,6 +1243,22 @@ def grid_bg(rng, alpha, wild_mass):
     return [f32_bits(k / 64.0) for k in ks]
 
 
+def near_uniform_bg(rng, alpha):
+    """a background that differs from uniform by a few units of 1/4096 per symbol (sums to exactly 1.0):
+    "different from uniform" must be decided exactly, not up to a tolerance"""
+    K = K_of(alpha)
+    n = K - 1
+    den = 4096 * n
+    ks = [4096] * n                       # uniform = 4096 / den
+    for _ in range(rng.range(1, 3)):
+        i, j = rng.below(n), rng.below(n)
+        if i != j:
+            d = rng.range(1, 40)
+            ks[i] += d
+            ks[j] -= d
+    return [f32_bits(r32(k / den)) for k in ks] + [f32_bits(0.0)]
+
+
 def dict_of(alpha, arr, drop_zero=True):
     le = letters(alpha)
     return ("d", [(le[j], arr[j]) for j in range(len(le)) if not (drop_zero and bits_f32(arr[j]) == 0.0)])
@@ -1367,6 +1383,7 @@ def generate(cfg, core, out):
             uni = uniform_bits(alpha)
             bgs = [("n",), ("o",), ("f", f32_bits(0.25)), dict_of(alpha, uni), dict_of(alpha, grid_bg(rng, alpha, False)),
                    dict_of(alpha, grid_bg(rng, alpha, True)), dict_of(alpha, grid_bg(rng, alpha, False)),
+                   dict_of(alpha, near_uniform_bg(rng, alpha)),
                    ("d", [(le[0], f32_bits(0.5)), (le[1], f32_bits(0.25))]),          # sums to 0.75
                    ("d", [(le[0], f32_bits(1.5)), (le[1], f32_bits(-0.5))]),          # outside [0, 1]
                    ("d", [(le[0], f32_bits(1.0))]), ("d", [])] + bad_dicts(rng, alpha)[:5]
